@@ -416,7 +416,7 @@ func rulePURARG(c *Ctx, r *Report) {
 						}
 						if pt, ok := al.Type().(*types.Pointer); ok && types.Identical(pt.Elem(), t.typ) {
 							key := "alloc|" + t.typ.Obj().Name() + "|" + fnName(fn)
-							if fn == t.home {
+							if fn == t.home || c.reachedOnlyFrom(fn, t.home, 0) {
 								r.ok(rule, key, c.instrPos(in), "allocated per call")
 							} else if fn == lr.Peek {
 								r.ok(rule, key, c.instrPos(in), "Peek's private copy")
@@ -585,7 +585,7 @@ func ruleCALLSTATE(c *Ctx, r *Report) {
 			}
 			n++
 			recv := c.resolve(call.Call.Args[0], nil)
-			if al, ok := recv.(*ssa.Alloc); ok && al.Heap || ok {
+			if _, ok := recv.(*ssa.Alloc); ok || c.freshPtrVal(recv, 0) {
 				r.ok(rule, "parser-fresh", c.instrPos(in), "parser allocated in this call")
 			} else {
 				r.bad(rule, "parser-fresh", c.instrPos(in), "the parse loop runs on "+c.key(recv, nil)+", which is not a parser allocated by this call (pooled or shared parser: state such as the default field survives from an earlier call)")
